@@ -47,6 +47,7 @@ func PlacementFileG(pkg, goName string, g PlacementGroup) (*spec.File, []*PlaceC
 	var cases []*PlaceCase
 	n := 0
 	number64 := false
+	jsonName := "" // explicit json_name of the URL-bound field ("" = protoc's default)
 	qname, qshape := "vx", ""
 	add := func(where string, k spec.T, cd spec.Card, verb string) {
 		n++
@@ -68,6 +69,10 @@ func PlacementFileG(pkg, goName string, g PlacementGroup) (*spec.File, []*PlaceC
 		}
 		if number64 {
 			fld.Ann.Int64Enc = 2
+		}
+		if jsonName != "" {
+			fld.JSON = jsonName
+			kn += "~json_name"
 		}
 		pc := &PlaceCase{Where: where, Kind: kn, Card: cd.String(), Verb: verb, Svc: pkg + ".PlaceService", Method: mname, In: pkg + "." + req.Name, Out: pkg + ".PlaceResp", Field: "val_x"}
 		path := fmt.Sprintf("/o%d", n)
@@ -101,6 +106,19 @@ func PlacementFileG(pkg, goName string, g PlacementGroup) (*spec.File, []*PlaceC
 				add("path", k, spec.Singular, v)
 			}
 		}
+	}
+	if g.JSONNames {
+		// the URL-bound field carries an explicit json_name that differs from the lowerCamel of its name
+		jsonName = "valueKey"
+		for _, k := range queryKinds {
+			for _, v := range []string{"GET", "DELETE", "POST", "PUT"} {
+				add("path", k, spec.Singular, v)
+			}
+			for _, v := range []string{"GET", "DELETE", "POST"} {
+				add("query", k, spec.Singular, v)
+			}
+		}
+		return f, cases
 	}
 	if g.NameShapes {
 		for _, ns := range QueryNameShapes {
@@ -142,6 +160,7 @@ type PlacementGroup struct {
 	Cards      []spec.Card
 	WithPath   bool
 	NameShapes bool // query fields under every QueryNameShapes spelling instead of the neutral "vx"
+	JSONNames  bool // path and query fields with an explicit json_name
 }
 
 // PlacementGroups lists the packages of the placement catalogue.
@@ -156,6 +175,7 @@ func PlacementGroups() []PlacementGroup {
 	return []PlacementGroup{
 		{Label: "ok", QueryKinds: plain, Cards: []spec.Card{spec.Singular}, WithPath: true},
 		{Label: "qnames", QueryKinds: []spec.T{spec.String, spec.Int32, spec.Bool}, Cards: []spec.Card{spec.Singular}, NameShapes: true},
+		{Label: "jsonnames", QueryKinds: []spec.T{spec.String, spec.Int32, spec.Int64}, Cards: []spec.Card{spec.Singular}, JSONNames: true},
 		{Label: "qenum", QueryKinds: []spec.T{spec.Enum}, Cards: []spec.Card{spec.Singular}},
 		{Label: "qbytes", QueryKinds: []spec.T{spec.Bytes}, Cards: []spec.Card{spec.Singular}},
 		{Label: "qopt", QueryKinds: all, Cards: []spec.Card{spec.Optional}},
